@@ -528,8 +528,8 @@ def perturb_token(tok, kind, rnd, left_blanks=0):
                 new = '-' + ipn + '.' + mant(len(fp)) + tail       # sign in the blank padding
         elif kind == 'zero':
             new = ((('0' * len(ip)) or ('0' if sign else '')) + '.' + '0' * len(fp) + echar + '+' + '0' * len(edig)).rjust(w)
-        elif kind in ('exp3', 'noE'):
-            ntail = ('' if kind == 'noE' else (echar or 'E')) + rnd.choice('+-') + str(rnd.randint(100, 290))
+        elif kind in ('exp3', 'noE', 'noEneg'):
+            ntail = ('' if kind in ('noE', 'noEneg') else (echar or 'E')) + ('-' if kind == 'noEneg' else rnd.choice('+-')) + str(rnd.randint(100, 290))
             room = len(fp) - (len(ntail) - len(tail))
             if room >= 1:
                 new = sign + ipn + '.' + mant(room) + ntail
@@ -582,10 +582,16 @@ def make_variant(olist, kind, vseed):
                 done.add(ln)
                 line = lines[ln]
                 newcells, kinds = [], []
+                first_row = bool(t.rows_all) and bool(t.rows_all[0]) and r is t.rows_all[0][0]
                 for ci, (a, b, tok) in enumerate(r['cells']):
                     if ci < t.kintcols:
                         newcells.append((a, b, tok)); kinds.append('same'); continue
-                    k = base if (share >= 1.0 or rnd.random() < share) else 'same'
+                    if base == 'noEfirst':
+                        # only the first value of the first row of a table: a letter-less 3-digit negative exponent there
+                        # (the row the reader detects the column layout from), every other cell as printed
+                        k = 'noEneg' if (first_row and ci == t.kintcols) else 'same'
+                    else:
+                        k = base if (share >= 1.0 or rnd.random() < share) else 'same'
                     lb = 0
                     while a - 1 - lb >= 0 and line[a - 1 - lb] == ' ':
                         lb += 1
@@ -1047,9 +1053,9 @@ def variants_for(tier, seed, fileno):
     K = KINDS
     if tier == 'quick':
         r = (seed + fileno) % 4
-        return [('digits', seed * 1000 + 1), (K[r], seed * 1000 + 2), (K[(r + 1 + (seed // 4) % 3) % 4] + '@20', seed * 1000 + 3)]
+        return [('digits', seed * 1000 + 1), (K[r], seed * 1000 + 2), (K[(r + 1 + (seed // 4) % 3) % 4] + '@20', seed * 1000 + 3), ('noEfirst', seed * 1000 + 4)]
     out = [('digits', seed * 1000 + 1), ('digits', seed * 1000 + 2), ('digits@30', seed * 1000 + 3), ('digits@5', seed * 1000 + 4)]
-    out += [(k, seed * 1000 + 10 + i) for i, k in enumerate(K)]
+    out += [(k, seed * 1000 + 10 + i) for i, k in enumerate(K)] + [('noEfirst', seed * 1000 + 20), ('noEfirst', seed * 1000 + 21)]
     for j, pc in enumerate((40, 15, 4)):
         out += [('%s@%d' % (k, pc), seed * 1000 + 100 * (j + 1) + i) for i, k in enumerate(K)]
     return out
